@@ -271,12 +271,14 @@ def _norm_pos(p):
 
 
 def _obviously_nonneg(p):
-    """all monomials even with positive coefficients => p >= 0 everywhere"""
+    """all coefficients positive and every generator with an odd exponent is known non-negative
+    (declared nonneg inputs, sqrt atoms, nonneg ite atoms) => p >= 0 on the path"""
+    nn = CTX.nn_gens if CTX is not None else ()
     for mon, c in p.items():
         if c < 0:
             return False
-        for e in mon:
-            if e & 1:
+        for i, e in enumerate(mon):
+            if e & 1 and i not in nn:
                 return False
     return True
 
@@ -301,6 +303,8 @@ class SReal:
             return o
         if _is_num(o):
             return ctx().const(o)
+        if type(o).__name__ in ("SymArray", "ndarray") and getattr(o, "ndim", 1) == 0:
+            return SReal.lift(o[()])
         return None
 
     def is_const(self):
@@ -504,12 +508,22 @@ def ssqrt(x):
 
 def sabs(x):
     x = SReal.lift(x)
+    if x.nn:
+        return x
     c = x >= 0
     if c is True:
         return x
     if c is False:
-        return -x
-    return ctx().ite(c, x, -x)
+        r = -x
+        r.nn = True
+        return r
+    t = ctx().ite(c, x, -x)
+    if not t.nn:
+        t = SReal(t.f, True)
+        n = t.f.numer
+        if t.f.denom.is_ground and len(n) == 1 and sum(n.LM) == 1 and n.LC == 1:
+            ctx()._nn_add(n.LM.index(1))  # the ite atom itself is the absolute value
+    return t
 
 
 def smin(a, b):
@@ -600,6 +614,10 @@ class Ctx:
         self.int_gens = set()
         self.last_model = None
         self.obligation_log = []
+        self._mono_axioms = []
+        self._late_axioms = []
+        self._s1_depth = 0
+        self.nn_gens = set()  # gens known >= 0 by declaration / construction
         self.elim = {}  # gen index -> PolyElement (closed: no eliminated gen occurs on the right)
         self.elim_eqs = []  # raw defining equalities of eliminated gens (kept for models)
         self._subs_cache = {}
@@ -621,10 +639,22 @@ class Ctx:
         fr = to_fraction(c)
         return SReal(self.F.ground_new(QQ(fr.numerator, fr.denominator)), fr >= 0)
 
-    def sym(self, name):
+    def sym(self, name, nonneg=False, positive=False):
         i = self._new_gen({"kind": "input", "name": name})
         self.inputs[name] = i
-        return SReal(self.gens[i])
+        r = SReal(self.gens[i], nonneg or positive)
+        if positive:
+            self._add_pc(Formula.rel(self.gens[i].numer, ">0"))
+        if nonneg or positive:
+            self._nn_add(i)
+        return r
+
+    def _nn_add(self, i):
+        """gen i is >= 0: an axiom handed to every solver (not a path-condition entry, because
+        the simplifier treats `gen >= 0` as trivially true once the gen is registered)"""
+        self.nn_gens.add(i)
+        if self._s1 is not None:
+            self._s1.add(self._zv(i) >= 0)
 
     def pretty(self, p):
         s = str(p)
@@ -834,6 +864,8 @@ class Ctx:
         self._s1 = None
         self._s3 = None
         self._monovars = {}
+        self._mono_axioms = []
+        self._late_axioms = []
         self._resimp = True
         return True
 
@@ -906,6 +938,9 @@ class Ctx:
                         self._add_pc(Formula.rel(l, "==0"))
                     return
         elif op == ">=0":
+            if Formula.rel(-p, ">=0").key() in self.pc_keys:
+                self._add_pc(Formula.rel(p, "==0"))
+                return
             forms = self._psd_forms(-p)
             if forms:
                 for l in forms:
@@ -1002,7 +1037,7 @@ class Ctx:
         c.__dict__.update(self.__dict__)
         for name in ("vinfo", "trace", "pc", "elim_eqs", "events", "notes"):
             setattr(c, name, list(getattr(self, name)))
-        for name in ("pc_keys", "nonzero_keys", "pos_keys", "int_gens"):
+        for name in ("pc_keys", "nonzero_keys", "pos_keys", "int_gens", "nn_gens"):
             setattr(c, name, set(getattr(self, name)))
         for name in ("atom_cache", "sqrt_gens", "inputs", "elim", "_z3vars", "_monovars"):
             setattr(c, name, dict(getattr(self, name)))
@@ -1012,6 +1047,9 @@ class Ctx:
         c._s1 = None
         c._s3 = None
         c._s3n = 0
+        c._s1_depth = 0
+        c._mono_axioms = list(self._mono_axioms)
+        c._late_axioms = []
         c._is_clone = True
         return c
 
@@ -1026,6 +1064,12 @@ class Ctx:
         if r == "unsat":
             raise PathAbort("assume-false", "")
         self._add_pc(f)
+
+    def assume_nonneg(self, x):
+        """assume x >= 0 and return x flagged non-negative"""
+        x = SReal.lift(x)
+        self.assume(x >= 0)
+        return SReal(x.f, True)
 
     def known(self, f):
         """is formula syntactically implied by the path condition?"""
@@ -1089,7 +1133,42 @@ class Ctx:
                 self.event("sqrt-neg", _where())
         if q.is_ground:
             return self._sqrt_poly(n.quo_ground(q.LC))
-        return self._sqrt_atom(x.f)
+        return self._sqrt_ratio(n, q)
+
+    def _split_squares(self, P):
+        """P = c * outside^2 * inside with inside square-free (polynomials); c rational"""
+        c, factors = self._sqf_list(P)
+        c = Fraction(int(c.numerator), int(c.denominator))
+        outside = self.R.one
+        inside = self.R.one
+        for fac, e in factors:
+            if e >= 2:
+                outside = outside * fac ** (e // 2)
+            if e % 2 == 1:
+                inside = inside * fac
+        return c, outside, inside
+
+    def _sqrt_ratio(self, n, q):
+        """sqrt(n/q), n/q >= 0 known: pull square factors out of numerator and denominator"""
+        cn, on, inn = self._split_squares(n)
+        cq, oq, inq = self._split_squares(q)
+        out = sabs(SReal(self.F(on))) / sabs(SReal(self.F(oq)))
+        c = cn / cq
+        inside = self.F(inn) / self.F(inq)
+        if c < 0:
+            inside = -inside
+            c = -c
+        if inside.numer.is_ground and inside.denom.is_ground:
+            v = Fraction(int(inside.numer.LC.numerator), int(inside.numer.LC.denominator)) / Fraction(int(inside.denom.LC.numerator), int(inside.denom.LC.denominator))
+            res = out * self.sqrt(self.const(c * v))
+        else:
+            # normalise the constant into c so that equal radicands share one atom
+            k = inside.numer.content()
+            kk = Fraction(int(k.numerator), int(k.denominator))
+            inside = self.F(inside.numer.quo_ground(k)) / self.F(inside.denom)
+            res = out * self._sqrt_atom(inside) * self.sqrt(self.const(c * kk))
+        res.nn = True
+        return res
 
     def _sqrt_poly(self, P):
         """sqrt of a polynomial known >= 0: pull out square factors."""
@@ -1124,7 +1203,7 @@ class Ctx:
         """square-free factorisation in the sub-ring of the gens that occur (sympy's sqf_list goes
         through a dense representation, hopeless in the pooled ring); skipped for large radicands"""
         used = sorted({i for m in P for i, e in enumerate(m) if e})
-        if len(P) > 40 or len(used) > 8 or max(sum(m) for m in P) > 6:
+        if len(P) > 600 or len(used) > 12 or max(sum(m) for m in P) > 8:
             return QQ(1), [(P, 1)]
         from sympy.polys.rings import PolyRing
 
@@ -1156,8 +1235,11 @@ class Ctx:
         g = self.gens[i].numer
         self.sqrt_gens[i] = rad
         r = SReal(self.gens[i], True)
+        self._nn_add(i)
         self.atom_cache[key] = r
-        self._add_pc(Formula.rel(g, ">=0"))
+        # r == 0 <=> radicand == 0 (consequence of r >= 0, r^2 * den == num)
+        self._add_pc(f_or(Formula.rel(rad.numer, "==0"), Formula.rel(g, ">0")))
+        self._add_pc(f_or(Formula.rel(rad.numer, "!=0"), Formula.rel(g, "==0")))
         self._add_pc(Formula("rel", g * g * rad.denom - rad.numer, "==0"))
         if rad.denom.is_ground and (self.sign_known(rad.numer) > 0 and rad.numer.coeff(1) > 0):
             self._add_pc(Formula.rel(g, ">0"))
@@ -1181,6 +1263,8 @@ class Ctx:
             return self.atom_cache[key]
         i = self._new_gen({"kind": "ite", "c": c, "a": a, "b": b})
         t = SReal(self.gens[i], a.nn and b.nn)
+        if a.nn and b.nn:
+            self._nn_add(i)
         self.atom_cache[key] = t
         g = self.gens[i].numer
         da = g * a.f.denom - a.f.numer
@@ -1326,7 +1410,7 @@ class Ctx:
                 if v is None:
                     v = z3.Real("m_" + "_".join(f"{i}^{e}" for i, e in enumerate(mon) if e))
                     self._monovars[mon] = v
-                    if all(e % 2 == 0 for e in mon):
+                    if all(e % 2 == 0 or i in self.nn_gens for i, e in enumerate(mon)):
                         self._pending_mono_axioms.append(v >= 0)
             terms.append(cv * v)
         if not terms:
@@ -1352,10 +1436,19 @@ class Ctx:
         return self._tr(f, self._z3poly)
 
     def _abs(self, f):
+        """abstracted formula; sign axioms of newly created monomial variables are asserted at the
+        base level of the T1 solver (never inside a push frame, where they would be lost on pop)"""
         self._pending_mono_axioms = []
         e = self._tr(f, self._abspoly)
         if self._pending_mono_axioms:
-            e = z3.And([e] + self._pending_mono_axioms)
+            self._mono_axioms.extend(self._pending_mono_axioms)
+            if self._s1 is not None:
+                if self._s1_depth:
+                    self._late_axioms.extend(self._pending_mono_axioms)
+                    e = z3.And([e] + self._pending_mono_axioms)
+                else:
+                    for a in self._pending_mono_axioms:
+                        self._s1.add(a)
         return e
 
     def _uf_constraints_z3(self):
@@ -1382,7 +1475,11 @@ class Ctx:
             s = z3.SolverFor("QF_LRA") if not self.int_gens else z3.Solver()
             for f in self.pc:
                 s.add(self._abs(f))
+            for i in self.nn_gens:
+                s.add(self._zv(i) >= 0)
             self._s1 = s
+            for a in self._mono_axioms:
+                s.add(a)
         return self._s1
 
     def _solver3(self, extra=()):
@@ -1399,6 +1496,8 @@ class Ctx:
             s.add(e)
         for f in self.elim_eqs:
             s.add(self._z3(f))
+        for i in self.nn_gens:
+            s.add(self._zv(i) >= 0)
         for f in extra:
             s.add(self._z3(f))
         ufc = self._uf_constraints_z3()
@@ -1432,6 +1531,7 @@ class Ctx:
             # T1: monomial linear abstraction (sound for unsat only)
             s1 = self._solver1()
             s1.push()
+            self._s1_depth += 1
             try:
                 for f in extra:
                     s1.add(self._abs(f))
@@ -1439,10 +1539,40 @@ class Ctx:
                 r1 = s1.check()
             finally:
                 s1.pop()
+                self._s1_depth -= 1
+                if self._late_axioms and self._s1_depth == 0:
+                    for a in self._late_axioms:
+                        s1.add(a)
+                    self._late_axioms = []
             if r1 == z3.unsat:
                 st.add("T1", "unsat")
                 return "unsat"
             st.add("T1", "nonunsat")
+            if extra and not getattr(self, "_in_t1b", False):
+                # T1b: add the query to a clone of the path so that equality elimination, SOS-derived
+                # equalities and unit propagation also see it; retry the abstraction if that changed anything
+                global CTX
+                sub = self.clone()
+                sub._in_t1b = True
+                saved = CTX
+                CTX = sub
+                try:
+                    n_el = len(sub.elim)
+                    try:
+                        for f in extra:
+                            sub._add_pc(f)
+                    except PathAbort:
+                        st.add("T1b", "unsat")
+                        return "unsat"
+                    if len(sub.elim) != n_el:
+                        s1b = sub._solver1()
+                        s1b.set("timeout", eng.t1_ms)
+                        if s1b.check() == z3.unsat:
+                            st.add("T1b", "unsat")
+                            return "unsat"
+                        st.add("T1b", "nonunsat")
+                finally:
+                    CTX = saved
             if purpose == "feas" and not eng.confirm_feas:
                 return "unknown"
             # T3: z3 nonlinear (fresh solver per query)
@@ -1518,6 +1648,8 @@ class Ctx:
                 s.add(tr(f))
             for f in self.elim_eqs:
                 s.add(tr(f))
+            for i in self.nn_gens:
+                s.add(zv(i) >= 0)
             for f in extra:
                 s.add(tr(f))
             r = s.check()
